@@ -115,6 +115,22 @@ def is_per_step(path):
     return bool(PER_STEP.search(path))
 
 
+def relate_exact():
+    """relation: the very same evaluation again (another hash-map order) gives bit-identical results"""
+    def rel(eb, ev, base, var):
+        a, b = eb.get("ep", {}), ev.get("ep", {})
+        if json.dumps(a, sort_keys=True) != json.dumps(b, sort_keys=True):
+            fa, fb = core.flatten(a), core.flatten(b)
+            d = [k for k in sorted(set(fa) | set(fb)) if fa.get(k) != fb.get(k)]
+            k = d[0] if d else "?"
+            return [("repeated evaluation gives a different result",
+                     {"path": k, "first": core.fstr(fa.get(k)), "second": core.fstr(fb.get(k)), "paths_differing": len(d)})]
+        if json.dumps(eb.get("acs"), sort_keys=True) != json.dumps(ev.get("acs"), sort_keys=True):
+            return [("repeated evaluation gives a different DHW fraction", {"first": str(eb.get("acs")), "second": str(ev.get("acs"))})]
+        return []
+    return rel
+
+
 def relate_scaled(factor_energy, per_step_map=None):
     """relation: every energy field of the variant = factor * base field; ratios equal; per-step vectors mapped by per_step_map"""
     def rel(eb, ev, base, var):
